@@ -55,6 +55,7 @@ def run_one(cfg, wid):
     t0 = time.time()
     p = subprocess.run(cargo_cmd(cfg), env=env, stdout=subprocess.PIPE, stderr=subprocess.PIPE, text=True, timeout=1800)
     codes, first_err, ran, fails, ok_line = [], None, set(), [], False
+    client_codes = []  # errors located in the smoke client (pv_smoke), not in the crate
     for line in p.stdout.splitlines():
         if line.startswith("{"):
             try:
@@ -65,6 +66,8 @@ def run_one(cfg, wid):
                 c = (m["message"].get("code") or {}).get("code")
                 if c:
                     codes.append(c)
+                    if m.get("target", {}).get("name") == "pv_smoke":
+                        client_codes.append(c)
                 if first_err is None:
                     first_err = "%s: %s" % (m.get("target", {}).get("name"), m["message"].get("message"))
             continue
@@ -77,7 +80,8 @@ def run_one(cfg, wid):
     res = {"cfg": cfg["name"], "wall_s": round(time.time() - t0, 2), "rc": p.returncode}
     if codes or (p.returncode != 0 and not ran and not fails):
         res["verdict"] = "compile-error"
-        res["kind"] = "compile:" + "+".join(sorted(set(codes)) or ["unknown"])
+        res["in_client"] = bool(codes) and len(client_codes) == len(codes)
+        res["kind"] = ("client-compile:" if res["in_client"] else "compile:") + "+".join(sorted(set(codes)) or ["unknown"])
         res["detail"] = first_err or p.stderr[-600:]
         if not codes and ("could not compile" not in p.stderr):
             res["verdict"] = "machinery-error"
@@ -145,6 +149,15 @@ def main():
     mach = [r for r in results if r["verdict"] == "machinery-error"]
     if mach:
         print("MACHINERY-ERROR C20: %d configurations could not be evaluated, e.g. %s: %s" % (len(mach), mach[0]["cfg"], mach[0].get("detail")))
+        sys.exit(2)
+    # if the smoke client fails to compile - with errors located in the client, not in the crate - in EVERY
+    # configuration that has a protocol block, the client is out of date with the crate's API (machinery, not
+    # a verdict on feature combinations); if it compiles in some configurations and not in others, that is
+    # the property's "an additional feature breaks code that compiled without it"
+    with_blocks = [r for r in results if r["cfg"] != "<none>"]
+    if with_blocks and all(r.get("in_client") for r in with_blocks):
+        r = with_blocks[0]
+        print("MACHINERY-ERROR C20: the smoke client does not compile against the crate in any configuration (client out of date with the API?): %s" % r.get("detail"))
         sys.exit(2)
     ok = {r["cfg"] for r in results if r["verdict"] == "ok"}
     # lattice edges with both endpoints explored and passing
